@@ -300,14 +300,21 @@ fn parse_line(l: &str) -> Option<(Vec<Vec<Op>>, Vec<usize>)> {
     }
     if progs.is_empty() || progs.iter().any(|p| p.is_empty()) { None } else { Some((progs, sched)) }
 }
+fn st4(x: i64) -> u64 {
+    match x { 0 => 0, 1 => 1, 2 => 2, 3 => 3, 301 => 4, 302 => 5, 304 => 6, 305 => 7, 306 => 8, 401 => 9, 402 => 10, 403 => 11, 404 => 12, 406 => 13, _ => 15 }
+}
+/// compact encodings, see coq/Corr/C37.v
 fn case_term(progs: &[Vec<Op>], o: &Obs) -> String {
-    let ps: Vec<String> = progs.iter().map(|p| clist(&p.iter().map(|op| format!("({},{})", cbool(op.empty), match op.wfail { Some(j) => z(j as i64), None => "(-1)".into() })).collect::<Vec<_>>())).collect();
-    let sch: Vec<String> = o.sched.iter().map(|t| t.to_string()).collect();
-    let steps: Vec<String> = o.steps.iter().map(|(c, st, p, l)| format!("({},{},{},{})", z(*c), clist(&st.iter().map(|x| z(*x)).collect::<Vec<_>>()), p, l)).collect();
-    let log: Vec<String> = o.log.iter().map(|e| format!("({},{},{})", e.0, e.1, e.2)).collect();
-    let res: Vec<String> = o.results.iter().map(|rs| clist(&rs.iter().map(|r| format!("({},{},{},{})", r.0, r.1, r.2, r.3)).collect::<Vec<_>>())).collect();
+    let ps: Vec<String> = progs.iter().map(|p| clist(&p.iter().map(|op| ((op.empty as u64) + 2 * op.wfail.map(|j| j as u64 + 1).unwrap_or(0)).to_string()).collect::<Vec<_>>())).collect();
+    let steps: Vec<String> = o.sched.iter().zip(o.steps.iter()).map(|(t, (c, st, p, l))| {
+        let mut acc: u64 = 0;
+        for x in st.iter().rev() { acc = st4(*x) + 16 * acc; }
+        (*t as u64 + 4 * (st4(*c) + 16 * ((*p).min(15) as u64 + 16 * ((*l).min(15) as u64 + 16 * acc)))).to_string()
+    }).collect();
+    let log: Vec<String> = o.log.iter().map(|e| (e.0 + 64 * (e.1 as u64 + 8 * e.2 as u64)).to_string()).collect();
+    let res: Vec<String> = o.results.iter().map(|rs| clist(&rs.iter().map(|r| (r.0 as u64 + 8 * (r.1 as u64 + 8 * (r.2 + 64 * r.3 as u64))).to_string()).collect::<Vec<_>>())).collect();
     let failed: Vec<String> = o.failed.iter().map(|x| x.to_string()).collect();
-    format!("Case {} {} {} {} {} {} {} {}", clist(&ps), clist(&sch), clist(&steps), clist(&log), clist(&res), clist(&failed), cbool(o.drained), o.probe)
+    format!("Case {} {} {} {} {} {} {}", clist(&ps), clist(&steps), clist(&log), clist(&res), clist(&failed), cbool(o.drained), o.probe)
 }
 
 fn kind_of(base: &str, o: &Obs) -> String {
@@ -326,31 +333,30 @@ fn ef(j: usize) -> Op { Op { empty: true, wfail: Some(j) } }
 
 fn enum_sets(thorough: bool) -> Vec<(Vec<Vec<Op>>, usize)> {
     // (programs, preemption bound)
-    let mut v = vec![
-        (vec![vec![c()], vec![c()]], 3),
-        (vec![vec![c(), c()], vec![c()]], 2),
-        (vec![vec![c()], vec![e()]], 3),
-        (vec![vec![cf(0)], vec![c()]], 2),
-        (vec![vec![cf(1)], vec![c()]], 2),
-        (vec![vec![c(), c()], vec![cf(0)]], 2),
-    ];
-    if thorough {
-        v = vec![
-            (vec![vec![c()], vec![c()]], 4),
+    if !thorough {
+        vec![
+            (vec![vec![c()], vec![c()]], 2),
+            (vec![vec![c()], vec![e()]], 2),
+            (vec![vec![c(), c()], vec![c()]], 2),
+            (vec![vec![cf(0)], vec![c()]], 2),
+            (vec![vec![c()], vec![c()], vec![c()]], 1),
+        ]
+    } else {
+        vec![
+            (vec![vec![c()], vec![c()]], 3),
+            (vec![vec![c()], vec![e()]], 3),
             (vec![vec![c(), c()], vec![c()]], 3),
-            (vec![vec![c(), c()], vec![c(), c()]], 3),
-            (vec![vec![c()], vec![e()]], 4),
-            (vec![vec![c(), e()], vec![c()]], 3),
+            (vec![vec![c(), c()], vec![c(), c()]], 2),
+            (vec![vec![c(), e()], vec![c()]], 2),
             (vec![vec![cf(0)], vec![c()]], 3),
-            (vec![vec![cf(1)], vec![c()]], 3),
-            (vec![vec![c(), c()], vec![cf(0)]], 3),
-            (vec![vec![c(), cf(1)], vec![c()]], 3),
-            (vec![vec![ef(0)], vec![c(), c()]], 3),
+            (vec![vec![cf(1)], vec![c()]], 2),
+            (vec![vec![c(), c()], vec![cf(0)]], 2),
+            (vec![vec![c(), cf(1)], vec![c()]], 2),
+            (vec![vec![ef(0)], vec![c(), c()]], 2),
             (vec![vec![c()], vec![c()], vec![c()]], 2),
-            (vec![vec![c(), c()], vec![c()], vec![c()]], 2),
-        ];
+            (vec![vec![c(), c()], vec![c()], vec![cf(0)]], 1),
+        ]
     }
-    v
 }
 
 fn random_progs(rng: &mut Rng) -> Vec<Vec<Op>> {
@@ -366,59 +372,152 @@ fn main() {
     match a.mode.as_str() {
         "gen" => gen(&a),
         "search" => search(&a),
+        "worker" => worker(&a),
         _ => { eprintln!("c37: unknown mode"); std::process::exit(2); }
     }
 }
 
+/// One unit of work of a generation run (executed in a worker process: the scheduler hook is
+/// process-global, so parallelism needs processes).
+#[derive(Clone, Debug)]
+enum Task {
+    /// every schedule of program set `set` with at most `bound` preemptions of the default policy
+    /// whose FIRST preemption index is congruent to `res` modulo `modulus` (the schedule without
+    /// preemption belongs to residue 0)
+    Enum { set: usize, bound: usize, modulus: usize, res: usize },
+    Random { seed: u64, count: usize },
+}
+impl Task {
+    fn to_args(&self) -> Vec<String> {
+        match self {
+            Task::Enum { set, bound, modulus, res } => vec!["enum".into(), set.to_string(), bound.to_string(), modulus.to_string(), res.to_string()],
+            Task::Random { seed, count } => vec!["random".into(), seed.to_string(), count.to_string()],
+        }
+    }
+    fn from_args(r: &[String]) -> Option<Task> {
+        let n = |i: usize| -> Option<u64> { r.get(i).and_then(|x| x.parse().ok()) };
+        match r.first().map(|x| x.as_str()) {
+            Some("enum") => Some(Task::Enum { set: n(1)? as usize, bound: n(2)? as usize, modulus: n(3)? as usize, res: n(4)? as usize }),
+            Some("random") => Some(Task::Random { seed: n(1)?, count: n(2)? as usize }),
+            _ => None,
+        }
+    }
+}
+
+struct Row { kind: String, nontrivial: bool, blocked: usize, replay: String, term: String }
+
+fn run_task(task: &Task, thorough: bool) -> Vec<Row> {
+    let mut rows = vec![];
+    let mut add = |progs: &[Vec<Op>], o: &Obs, base: &str| {
+        rows.push(Row { kind: kind_of(base, o), nontrivial: nontrivial(o), blocked: o.blocked_steps, replay: replay_line(progs, &o.sched), term: case_term(progs, o) });
+    };
+    match task {
+        Task::Enum { set, bound, modulus, res } => {
+            let (progs, _) = enum_sets(thorough)[*set].clone();
+            let mut stack: Vec<Vec<(usize, usize)>> = vec![vec![]];
+            while let Some(d) = stack.pop() {
+                let o = run_case(&progs, Plan::Preempt(&d));
+                if d.len() < *bound {
+                    let from = d.last().map(|x| x.0 + 1).unwrap_or(0);
+                    for i in from..o.sched.len() {
+                        if d.is_empty() && i % modulus != *res { continue; }
+                        for &u in &o.avail[i] {
+                            if u != o.sched[i] {
+                                let mut d2 = d.clone();
+                                d2.push((i, u));
+                                stack.push(d2);
+                            }
+                        }
+                    }
+                }
+                if !d.is_empty() || *res == 0 { add(&progs, &o, &format!("enum{}t", progs.len())); }
+            }
+        }
+        Task::Random { seed, count } => {
+            let mut rng = Rng::new(*seed);
+            for i in 0..*count {
+                let progs = random_progs(&mut rng);
+                let o = run_case(&progs, Plan::Random(rng.next(), 2 + (i % 4) as u64));
+                add(&progs, &o, &format!("random{}t", progs.len()));
+            }
+        }
+    }
+    rows
+}
+
+fn worker(a: &Args) {
+    let task = Task::from_args(&a.rest).expect("worker task");
+    let rows = run_task(&task, a.thorough());
+    let mut s = String::new();
+    for r in rows {
+        s.push_str(&format!("{}\t{}\t{}\t{}\t{}\n", r.kind, if r.nontrivial { 1 } else { 0 }, r.blocked, r.replay, r.term));
+    }
+    std::fs::write(&a.out, s).expect("worker output");
+}
+
 fn gen(a: &Args) {
     let mut w = CaseWriter::new(&a.out, "C37", "Corr.C37", 400);
-    let mut push = |w: &mut CaseWriter, progs: &[Vec<Op>], o: &Obs, base: &str| {
-        w.push(case_term(progs, o), replay_line(progs, &o.sched), nontrivial(o), &kind_of(base, o));
-    };
     if let Some(lines) = a.replay_lines() {
         for l in lines {
             if let Some((progs, sched)) = parse_line(&l) {
                 let o = run_case(&progs, Plan::Fixed(&sched));
-                push(&mut w, &progs, &o, "replay");
+                w.push(case_term(&progs, &o), replay_line(&progs, &o.sched), nontrivial(&o), &kind_of("replay", &o));
             }
         }
         w.finish(&[]);
         return;
     }
     let t_start = Instant::now();
-    let mut blocked_total = 0usize;
-    // (a) enumeration: every schedule with at most P preemptions of the default policy
-    for (progs, bound) in enum_sets(a.thorough()) {
-        let mut stack: Vec<Vec<(usize, usize)>> = vec![vec![]];
-        while let Some(d) = stack.pop() {
-            let o = run_case(&progs, Plan::Preempt(&d));
-            blocked_total += o.blocked_steps;
-            if d.len() < bound {
-                let from = d.last().map(|x| x.0 + 1).unwrap_or(0);
-                for i in from..o.sched.len() {
-                    for &u in &o.avail[i] {
-                        if u != o.sched[i] {
-                            let mut d2 = d.clone();
-                            d2.push((i, u));
-                            stack.push(d2);
-                        }
-                    }
-                }
+    // ---- task list
+    let mut tasks: Vec<Task> = vec![];
+    for (set, (_, bound)) in enum_sets(a.thorough()).iter().enumerate() {
+        let modulus = if *bound >= 3 { 8 } else if *bound == 2 { 4 } else { 1 };
+        for res in 0..modulus { tasks.push(Task::Enum { set, bound: *bound, modulus, res }); }
+    }
+    let mut rng = Rng::new(a.seed);
+    let (chunks, per) = if a.thorough() { (32, 150) } else { (8, 40) };
+    for _ in 0..chunks { tasks.push(Task::Random { seed: rng.next(), count: per }); }
+    // ---- run them in worker processes
+    let exe = std::env::current_exe().expect("current_exe");
+    let jobs: usize = std::env::var("C37_JOBS").ok().and_then(|x| x.parse().ok()).unwrap_or(12);
+    let tmp = a.out.join("work");
+    std::fs::create_dir_all(&tmp).expect("work dir");
+    let mut running: Vec<(usize, std::process::Child)> = vec![];
+    let mut next = 0usize;
+    let mut failed_tasks = 0usize;
+    while next < tasks.len() || !running.is_empty() {
+        while next < tasks.len() && running.len() < jobs {
+            let out = tmp.join(format!("t{:04}.tsv", next));
+            let child = std::process::Command::new(&exe).arg("worker").arg("--tier").arg(&a.tier).arg("--out").arg(&out)
+                .args(tasks[next].to_args()).spawn().expect("spawn worker");
+            running.push((next, child));
+            next += 1;
+        }
+        let mut i = 0;
+        let mut progressed = false;
+        while i < running.len() {
+            match running[i].1.try_wait() {
+                Ok(Some(st)) => { if !st.success() { failed_tasks += 1; } running.remove(i); progressed = true; }
+                _ => i += 1,
             }
-            push(&mut w, &progs, &o, &format!("enum{}t", progs.len()));
+        }
+        if !progressed { std::thread::sleep(Duration::from_millis(20)); }
+    }
+    if failed_tasks > 0 { eprintln!("c37: {} worker(s) failed", failed_tasks); std::process::exit(3); }
+    // ---- collect in task order
+    let mut blocked_total = 0usize;
+    for i in 0..tasks.len() {
+        let txt = std::fs::read_to_string(tmp.join(format!("t{:04}.tsv", i))).unwrap_or_default();
+        for l in txt.lines() {
+            let f: Vec<&str> = l.splitn(5, '\t').collect();
+            if f.len() != 5 { continue; }
+            blocked_total += f[2].parse::<usize>().unwrap_or(0);
+            w.push(f[4].to_string(), f[3].to_string(), f[1] == "1", f[0]);
         }
     }
-    // (b) random programs and schedules
-    let mut rng = Rng::new(a.seed);
-    let n_rand = if a.thorough() { 6000 } else { 250 };
-    for i in 0..n_rand {
-        let progs = random_progs(&mut rng);
-        let o = run_case(&progs, Plan::Random(rng.next(), 2 + (i % 4) as u64));
-        blocked_total += o.blocked_steps;
-        push(&mut w, &progs, &o, &format!("random{}t", progs.len()));
-    }
+    let _ = std::fs::remove_dir_all(&tmp);
     let wall = t_start.elapsed().as_secs_f64();
-    w.finish(&[("blocked_steps".into(), blocked_total.to_string()), ("harness_wall_s".into(), format!("{:.1}", wall))]);
+    w.finish(&[("blocked_steps".into(), blocked_total.to_string()), ("harness_wall_s".into(), format!("{:.1}", wall)), ("worker_tasks".into(), tasks.len().to_string())]);
 }
 
 /// Oracle only: random programs and schedules on the implementation.
